@@ -167,7 +167,21 @@ where
                 // Not initial state: increment
                 self.state[self.depth - 1] += 1;
             }
-            return match M::transcode(Consume(self.state.iter().into_keys())) {
+            let ret = match M::transcode(Consume(self.state.iter().into_keys())) {
+                Err(Traversal::TooShort(depth)) => {
+                    // Target type can not hold keys: look up the node itself to
+                    // continue the iteration after it.
+                    match M::transcode(Consume(self.state.iter().into_keys())) {
+                        Ok(((), node)) => {
+                            self.depth = node.depth();
+                            return Some(Err(depth));
+                        }
+                        Err(err) => Err(err),
+                    }
+                }
+                ret => ret,
+            };
+            return match ret {
                 Err(Traversal::NotFound(depth)) => {
                     // Reset index at current depth, then retry with incremented index at depth - 1 or terminate
                     // Key lookup was performed and failed: depth is always >= 1
@@ -180,10 +194,7 @@ where
                     self.depth = node.depth();
                     Some(Ok((path, node)))
                 }
-                Err(Traversal::TooShort(depth)) => {
-                    // Target type can not hold keys
-                    Some(Err(depth))
-                }
+                // TooShort: handled above
                 // TooLong: impossible due to Consume
                 // Absent, Finalization, Invalid, Access: not returned by transcode (traverse_by_key())
                 _ => unreachable!(),
